@@ -3,6 +3,7 @@ package main
 import (
 	"fmt"
 	"os"
+	"strconv"
 	"go/constant"
 	"go/token"
 	"go/types"
@@ -1402,10 +1403,10 @@ func (fr *Frame) convert(x *ssa.Convert, st *State) *Term {
 		case fi&types.IsInteger != 0 && ti&types.IsInteger != 0:
 			return v // machine arithmetic treated as mathematical (listed assumption)
 		case fi&types.IsInteger != 0 && ti&types.IsFloat != 0:
-			return app("(_ to_fp 11 53)", leaf("RNE"), app("to_real", v))
+			return vc.i2f(v)
 		case fi&types.IsFloat != 0 && ti&types.IsInteger != 0:
 			// Go truncates toward zero; defined only when in range
-			return app("to_int_rtz", v)
+			return vc.f2i(st, v)
 		case fi&types.IsFloat != 0 && ti&types.IsFloat != 0:
 			return v
 		case fi&types.IsString != 0 && ti&types.IsString != 0:
@@ -1706,4 +1707,37 @@ func (fr *Frame) selectOp(x *ssa.Select, st *State) {
 	// unless it is an external channel (ticker). Recorded via "chext" facts by the caller contract.
 	fr.tuples[x] = tup
 	vc.bumpWorld(st)
+}
+
+// Integer <-> float conversions are kept as uninterpreted bridges (mixing Int and FloatingPoint
+// arithmetic is out of reach of the solvers): i2f(n) is float64(n), f2i(x) is intN(x). Facts used:
+// i2f of small integer literals, and i2f(f2i(x)) == x for integral x of magnitude below 2^53.
+func (vc *VC) i2f(n *Term) *Term {
+	if len(n.args) == 0 {
+		if k, err := strconv.ParseInt(n.op, 10, 64); err == nil && k > -(1<<53) && k < (1<<53) {
+			return fpLit(float64(k))
+		}
+	}
+	d := "(declare-fun i2f (Int) Float64)"
+	if !vc.declSeen[d] {
+		vc.decl(d)
+		for k := -16; k <= 16; k++ {
+			vc.axioms = append(vc.axioms, fmt.Sprintf("(assert (= (i2f %s) %s))", intLit(int64(k)), fpLit(float64(k))))
+		}
+	}
+	return app("i2f", n)
+}
+
+func (vc *VC) f2i(st *State, x *Term) *Term {
+	vc.decl("(declare-fun f2i (Float64) Int)")
+	r := app("f2i", x)
+	vc.i2f(leaf("n"))
+	integral := mkAnd(app("fp.eq", app("fp.roundToIntegral", leaf("RTZ"), x), x), app("fp.lt", app("fp.abs", x), fpLit(9007199254740992)))
+	if vc.pure == 0 {
+		vc.assume(st.guard, mkImplies(integral, app("fp.eq", app("i2f", r), x)))
+		vc.assume(st.guard, mkImplies(app("fp.isZero", x), mkEq(r, leaf("0"))))
+		vc.assume(st.guard, mkImplies(mkAnd(integral, mkNot(app("fp.isZero", x))), mkNot(mkEq(r, leaf("0")))))
+	}
+	vc.assumptions["float64<->integer conversions: exact for integral values below 2^53 (uninterpreted bridge i2f/f2i)"] = true
+	return r
 }
